@@ -24,7 +24,9 @@ INDEX_RESULT = {"argmax", "argmin", "nonzero", "count_nonzero", "less", "less_eq
 
 def const_poly(rng, shape, kind, positive=False, nonzero=False):
     size = int(numpy.prod(shape, dtype=int))
-    pool = {"int": [-2, -1, 0, 1, 2, 3, 3, 1], "float": [-2.0, -0.5, 0.0, 0.5, 1.5, 2.0, 2.5, 0.5]}[kind]
+    # floats include values that are not short binary fractions (0.1, 0.3, 0.9): the comparison with numpy is exact
+    pool = {"int": [-2, -1, 0, 1, 2, 3, 3, 1],
+            "float": [-2.0, -0.5, 0.0, 0.5, 1.5, 2.0, 2.5, 0.5, 0.1, 0.2, 0.3, 0.9, 1.0, -0.1, 1.1, 0.7]}[kind]
     if positive:
         pool = [v for v in pool if v >= 0]
     if nonzero:
@@ -33,9 +35,32 @@ def const_poly(rng, shape, kind, positive=False, nonzero=False):
     return build_poly({"shape": list(shape), "names": [0], "rows": [[0]], "coefs": [vals], "dtype": gen.dtype_of(kind)})
 
 
+SWEEP = {"int": [-3, -2, -1, 0, 1, 2, 3, 5],
+         "float": [-2.5, -1.0, -0.1, 0.0, 0.1, 0.2, 0.3, 0.5, 0.7, 0.9, 1.0, 1.1, 1.5, 2.0, 2.5, 3.0]}
+
+
+def pair_sweep(rng, rec):
+    """One binary function on ALL ordered pairs of a value set in a single call (a x b as 1-d arrays)."""
+    kind = rng.choice(["int", "float"])
+    fn = rng.choice([f for f in BINARY if f not in ("outer", "inner", "allclose")])
+    vals = SWEEP[kind]
+    if fn == "power":
+        kind, vals = "int", [0, 1, 2, 3]
+    left = [v for v in vals for _ in vals]
+    right = [w for _ in vals for w in vals]
+    if fn in ("floor_divide", "divide", "remainder", "divmod"):
+        keep = [i for i, w in enumerate(right) if w != 0]
+        left, right = [left[i] for i in keep], [right[i] for i in keep]
+    mk = lambda v: build_poly({"shape": [len(v)], "names": [0], "rows": [[0]], "coefs": [v], "dtype": gen.dtype_of(kind)})  # noqa: E731
+    a, b = rec.new(mk(left)), rec.new(mk(right))
+    rec.do("constfn", [a, b], keep=False, fn=fn, p={}, spelling=rng.choice(["numpoly", "numpy"]),
+           index_result=fn in INDEX_RESULT, np=[], np_out="ret")
+
+
 def one_trace(rng, tid, prop):
     reset_options()
     rec = Recorder(tid, prop)
+    pair_sweep(rng, rec)
     for _ in range(rng.randint(4, 8)):
         kind = rng.choice(["int", "float"])
         shape = rng.choice(SHAPES)
